@@ -1006,3 +1006,88 @@ def rule_publish_success(ctx):
                 ctx.ok(rid, key, "dominated by the success edge of every examined fallible call before it", nontrivial=True, fn=f)
     ctx.count(rid + ".publish-sites", sites)
     ctx.floor(rid + ".publish-sites", 2)
+
+
+def rule_pool_wait(ctx):
+    """no task submitted to the thread pool blocks on a render handle"""
+    import re
+    rid = "R-POOL-WAIT"
+    ctx.rule(rid, "a task submitted to the thread pool (a closure handed to JxlThreadPool::scope / spawn / for_each_*, or to JxlScope::spawn) "
+                  "must not reach the Condvar wait of a render handle (FrameRenderHandle::wait_until_render, through run_with_image or "
+                  "RenderedImage::blend): the frame it waits for may be rendering further down the stack of the very worker that, idle "
+                  "inside a rayon scope, stole this task - then nobody can ever finish it.  Decided on the call graph of jxl_render "
+                  "(resolved callees and the closures a function creates), depth 8, closure numbers stripped from the keys")
+    cr = ctx.prog.crate("jxl_render")
+
+    def callees_of(f):
+        out = set()
+        for b, t in f.calls():
+            c = callee(t)
+            if not c:
+                continue
+            for nm in (c.get("res"), c["fn"]):
+                if nm and nm in cr.fns:
+                    out.add(nm)
+        for blk in f.blocks:
+            for st in blk[0]:
+                if st[0] == "=" and st[2][0] == "agg" and st[2][1][0] == "closure" and st[2][1][1] in cr.fns:
+                    out.add(st[2][1][1])
+        return out
+
+    direct = {f.path for f in cr.fn_list if any(callee(t) and "wait_until_render" in (callee(t).get("res") or callee(t)["fn"]) for b, t in f.calls())}
+    if not direct:
+        ctx.anchor_missing(rid, "callers of FrameRenderHandle::wait_until_render")
+        return
+
+    def reaches(path, seen, depth=0):
+        if path in seen or depth > 8:
+            return None
+        seen.add(path)
+        if path in direct:
+            return [path]
+        f = cr.fns.get(path)
+        if f is None:
+            return None
+        for c in sorted(callees_of(f)):
+            r = reaches(c, seen, depth + 1)
+            if r:
+                return [path] + r
+        return None
+
+    n = 0
+    reported = set()
+    for f in cr.fn_list:
+        if f.kind == "Promoted":
+            continue
+        defs = None
+        for b, t in f.calls():
+            c = callee(t)
+            if not c:
+                continue
+            nm = c.get("res") or c["fn"]
+            if "jxl_threadpool" not in nm or nm.split("::")[-1] not in ("spawn", "scope", "for_each_vec", "for_each_vec_with", "for_each_mut_with"):
+                continue
+            if defs is None:
+                defs = Defs(f)
+            for a in t[2]:
+                l = op_local(a)
+                dd = defs.single(l) if l is not None else None
+                if not (dd and dd[2] == "assign" and dd[3][2][0] == "agg" and dd[3][2][1][0] == "closure"):
+                    continue
+                n += 1
+                ctx.seen(f)
+                r = reaches(dd[3][2][1][1], set())
+                strip = lambda s_: re.sub(r"::\{closure#\d+\}", "", strip_generics(s_))
+                if r:
+                    key = "%s|%s" % (strip(f.path), strip(r[-1]))
+                    if key in reported:
+                        continue
+                    reported.add(key)
+                    ctx.bad(rid, key, "a pool task created in %s reaches %s, which waits on a render handle (%s): with a multi-threaded pool the "
+                            "waited-for frame can be suspended on the same worker's stack - deadlock" % (strip(f.path), strip(r[-1]),
+                                                                                                        " -> ".join(strip(x).split("::")[-1] for x in r)),
+                            fn=f, pos=t[-2])
+    ctx.count(rid + ".pool-closures", n)
+    ctx.floor(rid + ".pool-closures", 10)
+    if not reported:
+        ctx.ok(rid, "no-wait-in-pool-tasks", "%d pool closures, none reaches a handle wait" % n, nontrivial=True)
